@@ -87,6 +87,50 @@ SOURCE_COMMITS = []
 NOT_CLAIMED = {}
 
 PROPS = {
+    'C05': {
+        'level_text': 'Full proof (over R) for every configuration with kt_start = 0, every (history-dependent) score function and every accept/reject history with non-negative thresholds: the temperature stays 0, an accepted score is never below the current one, the tracked score is non-decreasing along the run and the result is at least the input; for parameter-only scores the score of the returned state is at least that of the input. About the executable optimiser model, which reproduces whole optimise_state runs bit-for-bit from the seed.',
+        'level_note': 'Trusted: Lean kernel + 3 axioms; optimiser model tied by bit-exact opt/optc families (scripted recording State and real crystal states, PCG port); real numbers have no NaN/inf: the IEEE behaviour at kt in {+0,-0,NaN} is covered by the guard `!(kt > 0)` being the first test (modelled literally) and by the carrier-generic NaN theorem in C07.',
+        'technique': 'Lean 4 induction over optimiser runs (invariant) + bit-exact differential correspondence of whole runs',
+        'theorems': ['Proofs.C05'],
+        'families': [('opt', 1500, 30000), ('optc', 250, 5000)],
+        'search': (10, 240),
+        'rule': 'opt: scripted recording states (explicit outcome lists with ties/invalids, quadratic bowls with forbidden zones) x configuration grid (kt_start 0/positive, kt_finish, kt_ratio incl. >1, steps/inner incl. 0, non-multiples, inner>steps, convergence); optc: real hard/LJ crystal states, 7 groups; non-trivial = run with >= 5 score calls; distinct by request text; search: history monitors on the real optimiser with kt_start = 0',
+        'assumptions': ['thresholds are draws from [0,1) (rand Standard f64)', 'f64 rounding not modelled'],
+        'trusted': ['rand 0.7.3 / rand_pcg 0.2.1 sampling algorithms are modelled (Model/Rand.lean) and tied by the bit-exact rng family', 'f64 rounding and IEEE special values other than NaN-as-not-equal-to-itself are outside the real-number theorems'],
+    },
+    'C06': {
+        'level_text': 'Full proof for an ARBITRARY carrier (no algebraic law used, so it holds verbatim at f64, bit for bit): after every step the heap is exactly the proposal (accepted) or exactly the heap before it (rejected); a proposal differs from its parent in at most one cell; events chain; the returned heap is the last accepted proposal (the input if none), also on the convergence exit; the tracked score is that proposal\'s score; for parameter-only scores it is the score of the returned state.',
+        'level_note': 'Trusted: Lean kernel + propext/Quot.sound; heap model of SharedValue/StandardBasis tied by the bit-exact basis family (set/reset/sample sequences incl. shared cells) and whole-run opt/optc families.',
+        'technique': 'Lean 4 induction over optimiser runs for an arbitrary scalar carrier + bit-exact differential correspondence',
+        'theorems': ['Proofs.C06'],
+        'families': [('basis', 1500, 40000), ('opt', 1500, 30000), ('optc', 250, 5000)],
+        'search': (10, 240),
+        'rule': 'basis: random set/reset/get/sample/setsampled sequences on up to 5 handles over up to 4 cells (shared cells included); opt/optc as for C05; non-trivial = run with >= 5 score calls / any basis sequence; search: exact-restore, single-parameter and result-is-last-accepted monitors on recorded real histories',
+        'assumptions': [],
+        'trusted': [],
+    },
+    'C07': {
+        'level_text': 'Proof over R of every deterministic clause (better always accepted, undefined never, equal accepted at every temperature, worse never at kT <= 0, worse by d at kT > 0 accepted iff threshold < exp(-d/kT)), of the probability clause as a Lebesgue-measure statement (volume of accepting thresholds in [0,1) equals exp(-d/kT)), carrier-generic NaN clause, and that each step applies exactly this rule with its own draw, the current score and temperature. Partial: that the threshold is uniform on [0,1) is trusted (rand).',
+        'level_note': 'Trusted: uniformity of rand\'s Standard f64 and Pcg64Mcg (the stream itself is pinned bit-for-bit by the rng family); Lean kernel + 3 axioms; Mathlib measure theory.',
+        'technique': 'Lean 4 proof (real analysis + Lebesgue measure) + bit-exact differential correspondence incl. PRNG port',
+        'theorems': ['Proofs.C07'],
+        'families': [('rng', 400, 10000), ('opt', 1500, 30000), ('optc', 250, 5000)],
+        'search': (10, 240),
+        'rule': 'rng: raw PCG stream for 64 seeds and the three sampling functions; opt/optc as for C05; search: deterministic Metropolis clauses on every step whose outcome is visible in the recorded vectors, thresholds re-drawn with the real rand crate',
+        'assumptions': ['threshold uniform on [0,1)'],
+        'trusted': ['rand 0.7.3 / rand_pcg 0.2.1 sampling algorithms are modelled (Model/Rand.lean) and tied by the bit-exact rng family', 'f64 rounding and IEEE special values other than NaN-as-not-equal-to-itself are outside the real-number theorems'],
+    },
+    'C08': {
+        'level_text': 'Proof over R: clamp lands in range; run invariant — if every handled parameter starts inside its range then every proposal and the result keep every handled parameter inside its range and every unhandled parameter unchanged, for any history; generated degrees of freedom and bounds (regenerated from cell.rs/site.rs each run) equal the declared ones (length [0.01,cur], ratio [0.1,cur], angle [pi/6,pi/2] only for oblique cells, x,y in [-1/2,1/2], orientation [0,2pi]); handle addresses distinct; angle unhandled unless Monoclinic; chained stages re-derive contained ranges; no degenerate cell inside the box. Partial: finiteness of the returned score rests on the score functions (C02/C03) and the NaN clause of C07.',
+        'level_note': 'Trusted: translator pvtx.py for bounds (validated by cell dof / site basis / state basis requests observed behaviourally on the crate); Lean kernel + 3 axioms.',
+        'technique': 'Lean 4 invariant proof + kernel-decided declared-constants obligations over translator output + differential correspondence',
+        'theorems': ['Proofs.C08'],
+        'families': [('state', 1500, 30000), ('cell', 1500, 20000), ('site', 1000, 20000), ('opt', 1000, 20000), ('optc', 250, 5000)],
+        'search': (12, 300),
+        'rule': 'state: 7 groups x shapes x potentials, ops score/params/basis/label/relpos/cartpos incl. from_group initial states; search: range/family monitor on every recorded proposal, chains of 1..4 stages on real states, from_group validity for every group x shape family',
+        'assumptions': ['f64 rounding not modelled'],
+        'trusted': ['rand 0.7.3 / rand_pcg 0.2.1 sampling algorithms are modelled (Model/Rand.lean) and tied by the bit-exact rng family', 'f64 rounding and IEEE special values other than NaN-as-not-equal-to-itself are outside the real-number theorems'],
+    },
     'C14': {
         'level_text': 'Full proof over the reals: the Cartesian map is x*A + y*B with A=(a,0), B=(b cos t, b sin t); periodic_images of a placement within k shells is exactly the list of translates by n*A+m*B over the index set {|n|,|m|<=k} (minus (0,0) unless asked), each once, in order, orientation unchanged; area = |A x B|; corners/centre. The model functions are the same Lean terms that run at Float against the crate.',
         'level_note': 'Trusted: Lean kernel + 3 standard axioms; model of src/cell.rs tied by the bit-exact cell/mat request families (cells injected through the crate Deserialize); f64 rounding outside the theorems (statements are exact over R; the search evaluates them on the real outputs to 1e-12).',
@@ -137,5 +181,38 @@ PROPS = {
                  'search: grammar strings with independently computed denotation, evaluated at 5 probe points on the real transform'),
         'explanation': 'grammar_sound is proved for every string of the grammar over any field; the parse family pins the model parser to the Rust function bit-for-bit',
         'assumptions': ['f64 rounding of the single division d/e is outside the theorem (entries in {0,±1} are exact)'],
+    },
+    'C18': {
+        'level_text': 'Full proof over R: every step of (0-based) loop l runs at kt_start * factor^l (constant within a loop, one multiplication between loops); factor = 1 - kt_ratio when a ratio is given; otherwise kt_start * factor^L = kt_finish for the L = steps/inner_steps loops of the run, so the last loop runs at kt_finish/factor; a zero start stays zero.',
+        'level_note': 'Trusted: Lean kernel + 3 axioms; Real.rpow for powf; build/optimise model tied by bit-exact opt runs (the acceptance pattern of every run depends on kt per loop).',
+        'technique': 'Lean 4 proof (Real.rpow) + run invariant + bit-exact differential correspondence',
+        'theorems': ['Proofs.C18'],
+        'families': [('opt', 1500, 30000)],
+        'search': (10, 240),
+        'rule': 'opt as for C05; search: schedule monitor — for every visibly decided worse move the decision must equal thr < exp(-d/kT_l) with kT_l from the SPECIFIED schedule and thr re-drawn with the real rand crate (multi-loop configurations, score differences of the order of kT)',
+        'assumptions': ['f64 rounding not modelled'],
+        'trusted': ['rand 0.7.3 / rand_pcg 0.2.1 sampling algorithms are modelled (Model/Rand.lean) and tied by the bit-exact rng family', 'f64 rounding and IEEE special values other than NaN-as-not-equal-to-itself are outside the real-number theorems'],
+    },
+    'C19': {
+        'level_text': 'Full proof over R: a sample is within step*range/2 of the value, clamping never moves further from an in-range value, the adaptive ratio stays in (0,1] for every rejection history, hence every proposal of every loop changes exactly one cell by at most max_step_size*(max-min)/2.',
+        'level_note': 'Trusted: Lean kernel + 3 axioms; draw in [-1/2,1/2) (rand gen_range, pinned by rng family).',
+        'technique': 'Lean 4 invariant proof over runs + bit-exact differential correspondence',
+        'theorems': ['Proofs.C19'],
+        'families': [('basis', 1000, 20000), ('opt', 1500, 30000), ('optc', 250, 5000)],
+        'search': (10, 240),
+        'rule': 'opt as for C05 with multi-loop configurations and all rejection rates; search: per-proposal step-bound monitor on recorded real histories',
+        'assumptions': ['f64 rounding not modelled'],
+        'trusted': ['rand 0.7.3 / rand_pcg 0.2.1 sampling algorithms are modelled (Model/Rand.lean) and tied by the bit-exact rng family', 'f64 rounding and IEEE special values other than NaN-as-not-equal-to-itself are outside the real-number theorems'],
+    },
+    'C20': {
+        'level_text': 'Proof: termination is structural; build never yields inner_steps = 0; without convergence exactly (steps/inner)*inner proposals (<= steps, > steps - inner); any run evaluates whole loops and at most steps; the run with a threshold is a prefix of the run without; an early exit implies the last six loops each gained less than the threshold; from a valid input no panic site of optimise_state is reachable. Partial: the CLI clause (exit status / files) is checked by the cli correspondence, argument parsing (structopt/clap) is trusted.',
+        'level_note': 'Trusted: panic sites of optimise_state are enumerated by hand in the model (PanicSite) and tied by the opt family comparing panic/ok outcomes incl. panic site names; Lean kernel + 3 axioms.',
+        'technique': 'Lean 4 structural induction over the optimiser loops + differential correspondence of outcomes',
+        'theorems': ['Proofs.C20'],
+        'families': [('opt', 2000, 40000), ('optc', 250, 5000)],
+        'search': (10, 240),
+        'rule': 'opt as for C05 over steps/inner in {0,1,2,3,7,...} incl. non-multiples and inner > steps; search: work-bound and six-loop monitors, prefix oracle (same run with and without threshold), catch_unwind around every run',
+        'assumptions': [],
+        'trusted': [],
     },
 }
